@@ -54,6 +54,7 @@ class Tr:
         self.opt_params = set()       # optional parameters (`x is None` tests become matches)
         self.ret_optional = False     # the function returns an Optional value
         self.skip_assign = set()      # names whose assignment is an external read folded into a parameter
+        self.opt_locals = set()       # local names holding an Optional value (`if x is not None:` becomes `if let`)
         self.declared = []            # stack of sets of declared names
         self.mutable = set()
 
@@ -142,6 +143,8 @@ class Tr:
 
     def b(self, n):
         """Boolean expression (Lean Bool)"""
+        if not isinstance(n, (ast.Constant, ast.Name)) and self.src(n) in self.attrs:
+            return self.attrs[self.src(n)]
         if isinstance(n, ast.UnaryOp) and isinstance(n.op, ast.Not):
             return '(!%s)' % self.b(n.operand)
         if isinstance(n, ast.BoolOp):
@@ -274,6 +277,8 @@ class Tr:
                 return ['%sthrow PyErr.indexError' % ind]
             if name == 'InvalidStackError':
                 return ['%sthrow PyErr.invalidStack' % ind]
+            if name == 'InvalidExtensionError':
+                return ['%sthrow PyErr.invalidExtension' % ind]
             raise Unsupported('raise ' + self.src(s))
         if isinstance(s, ast.If) and isinstance(s.test, ast.Compare) and len(s.test.ops) == 1 \
                 and isinstance(s.test.ops[0], ast.Is) and isinstance(s.test.left, ast.Name) \
@@ -284,6 +289,16 @@ class Tr:
             out += self.block(s.body, ind + '  ')
             out.append('%s| some %s =>' % (ind, x))
             out += self.block(s.orelse, ind + '  ')
+            return out
+        if isinstance(s, ast.Continue):
+            return ['%scontinue' % ind]
+        if isinstance(s, ast.If) and not s.orelse and isinstance(s.test, ast.Compare) and len(s.test.ops) == 1 \
+                and isinstance(s.test.ops[0], ast.IsNot) and isinstance(s.test.left, ast.Name) \
+                and s.test.left.id in self.opt_locals and isinstance(s.test.comparators[0], ast.Constant) \
+                and s.test.comparators[0].value is None:
+            x = s.test.left.id
+            out = ['%sif let some %s := %s then' % (ind, x, x)]
+            out += self.block(s.body, ind + '  ')
             return out
         if isinstance(s, ast.Assert):
             if isinstance(s.test, ast.Constant) and s.test.value is False:
@@ -322,6 +337,10 @@ class Tr:
             elif isinstance(s.target, ast.Name):
                 head = '%sfor %s in %s do' % (ind, s.target.id, self.e(it))
                 self.declared.append({s.target.id})
+            elif isinstance(s.target, ast.Tuple) and len(s.target.elts) == 2 and all(isinstance(x, ast.Name) for x in s.target.elts):
+                a, b = s.target.elts[0].id, s.target.elts[1].id
+                head = '%sfor (%s, %s) in %s do' % (ind, a, b, self.e(it))
+                self.declared.append({a, b})
             else:
                 raise Unsupported('for ' + self.src(s.target))
             body = self.block(s.body, ind + '  ')
@@ -330,6 +349,8 @@ class Tr:
         raise Unsupported('statement ' + type(s).__name__)
 
     def ret(self, n):
+        if getattr(self, 'ret_unit', False):
+            return '()'
         if self.ret_optional:
             if isinstance(n, ast.Constant) and n.value is None:
                 return 'none'
@@ -375,6 +396,7 @@ class TrGetMeta(Tr):
 PRELUDE = '''/- GENERATED by tools/gen_code.py from /repo/src/dcmstack — do not edit. -/
 import DcmVerif.Generated.Tables
 import DcmVerif.Model.Wrap
+import DcmVerif.Model.Valid
 set_option autoImplicit false
 set_option linter.unusedVariables false
 open Cls
@@ -385,6 +407,7 @@ inductive PyErr
   | indexError
   | assertionError
   | invalidStack
+  | invalidExtension
 deriving DecidableEq, Repr
 
 /-- a classification as the pair of strings the Python code unpacks it into -/
@@ -447,6 +470,31 @@ def translate():
                 {'self.get_valid_classes()': 'get_valid_classes self_shape'},
                 optional_exprs=['self.n_slices'], cls_vars=['classification']),
              '`DcmMetaExtension.get_multiplicity` (dcmmeta.py), translated statement by statement')
+    # ---- check_valid
+    f = find_func(dm, 'DcmMetaExtension', 'check_valid')
+    if f is None:
+        missing.append('check_valid: not found')
+    else:
+        tr = Tr({'_req_base_keys_map[self.version] <= set(self._content)': '(CV.requiredOk c)',
+                 'self.affine.shape != (4, 4)': '(c.affineRows != [4, 4, 4, 4])',
+                 'self.slice_dim': 'c.sliceDim', 'self.shape': 'c.shape',
+                 'classes[0] in self._content': '(c.dict classes).isSome',
+                 'classes[1] in self._content[classes[0]]': '(c.dict classes).isSome',
+                 'self.get_class_dict(classes)': '((c.dict classes).getD [])',
+                 'iteritems(cls_meta)': 'cls_meta',
+                 'set(self.get_class_dict(classes)) & set(self.get_class_dict(other_classes))':
+                     '((CV.keysOf c classes).filter fun k => (CV.keysOf c other_classes).contains k)'},
+                {'self.get_valid_classes()': 'get_valid_classes c.shape',
+                 'self.get_multiplicity(classes)': 'get_multiplicity c.shape (c.sliceDim.map fun d => c.shape.getD d.toNat 0) classes'})
+        tr.opt_locals = {'slice_dim'}
+        tr.ret_unit = True
+        tr.skip_assign = {'msg', 'n_vals'}
+        tr.stmt_map = {'if n_vals != cls_mult:': ['if (vals != CV.EShape.sized cls_mult) then', '  throw PyErr.invalidExtension']}
+        emit('check_valid', '(c : CV.Content) : Except PyErr Unit', f.body + [ast.parse('return 0').body[0]], tr,
+             '`DcmMetaExtension.check_valid` (dcmmeta.py) over the abstraction `CV.Content` of the content dictionary '
+             '(Model/Valid.lean): the version / required-keys test is `CV.requiredOk`, the affine is its row lengths, a '
+             'classification dictionary that is missing (base or sub level) is `none`, `len(vals)` is the recorded '
+             '`EShape` of a value')
     # ---- meta_valid
     f = find_func(dm, 'NiftiWrapper', 'meta_valid')
     if f is None:
